@@ -198,7 +198,8 @@ class Scenario(object):
                     s = sermod.Serializer(fn, self.chunk, False, user_serializer(ic, self.fail_after), user_deserializer, None)
                 else:
                     s = sermod.Serializer(fn, self.chunk, self.fork, None, None, None)
-                s.serialize(self.new_data(), 7)
+                with sc.guard_exit():
+                    s.serialize(self.new_data(), 7)
                 pid = sc.priv(s, "pid")
                 if pid > 0:
                     os.waitid(os.P_PID, pid, os.WEXITED | os.WNOWAIT)
